@@ -104,10 +104,11 @@ let () =
           let (s', r) = api_read fv n lim hd.st in
           hd.st <- s';
           let ret_items = if fv then int_of_z r.ret * int_of_z hd.st.ch else int_of_z r.ret in
-          let vals = List.map (conv_read hd.enc t) (firstn ret_items r.items) in
+          (* a conversion the driver does not carry (integer reads of float files): the digest is marked, everything else is still predicted *)
+          let vals = try Some (List.map (conv_read hd.enc t) (firstn ret_items r.items)) with Failure _ -> None in
           let requested = if int_of_z n <= 0 then 0 else if fv then int_of_z n * int_of_z hd.st.ch else int_of_z n in
           let tail = if ret_items = requested then "-" else if List.length r.items > ret_items then "m" else match r.rtail with TZero _ -> "z" | TUntouched _ -> "u" in
-          Printf.printf "%s ret=%s %s dig=%s tail=%s\n" ln (zs r.ret) (pos_fields s') (hex64 (digest vals)) tail
+          Printf.printf "%s ret=%s %s dig=%s tail=%s\n" ln (zs r.ret) (pos_fields s') (match vals with Some v -> hex64 (digest v) | None -> "unsupported") tail
       | "mw" ->
           let ln = w.(1) and hd = Hashtbl.find handles (int_of_string w.(2)) and t = w.(3) and fv = w.(4) = "f" in
           let n = int_of_string w.(5) and lim = z_of_int (int_of_string w.(6)) in
